@@ -39,7 +39,43 @@ structure JState where
   known : Bool := true               -- the meaning of the last successful load is known
   prev : List (List Bytes × TExp) := []
   lastDump : Option String := none   -- C14: last dump with nothing state-changing since
+  /-- spelling of each live node's own name, by (lower-cased path, kind); a node that is
+      missing here has a spelling the judge does not know -/
+  names : List ((List Bytes × Nat) × Bytes) := []
   deriving Inhabited
+
+abbrev Names := List ((List Bytes × Nat) × Bytes)
+
+def namesGet (m : Names) (k : List Bytes × Nat) : Option Bytes :=
+  (m.find? fun x => x.1 == k).map (·.2)
+
+/-- the spellings a file uses (the first one written, for a repeated key) -/
+def fileNames : Nat → List Bytes → List CNode → Names
+  | 0, _, _ => []
+  | fuel + 1, lp, cs => cs.flatMap fun c =>
+      let p := lp ++ [lowerName c.name]
+      ((p, c.kind), c.name) :: (match c with | .obj _ ks => fileNames fuel p ks | _ => [])
+
+/-- the spellings a registration uses, for the node and the objects above it -/
+def regNames (r : Reg) : Names :=
+  (List.range r.path.length).map fun i =>
+    (((r.path.take (i + 1)).map lowerName, if i + 1 == r.path.length then r.kind.kind else 3), r.path.getD i [])
+
+/-- a successful load: an entry the file mentions takes the file's spelling, one it
+    omits keeps the spelling it had -/
+def namesAfterRead (view : List ONode) (old file : Names) : Names :=
+  view.filterMap fun n =>
+    match namesGet file (n.path, n.kind) with
+    | some sp => some ((n.path, n.kind), sp)
+    | none => (namesGet old (n.path, n.kind)).map fun sp => ((n.path, n.kind), sp)
+
+/-- a registration: a node that exists keeps its spelling, one it creates takes the
+    registration's -/
+def namesAfterReg (view : List ONode) (old reg : Names) (known : Bool) : Names :=
+  view.filterMap fun n =>
+    match namesGet old (n.path, n.kind) with
+    | some sp => some ((n.path, n.kind), sp)
+    | none => if known then (namesGet reg (n.path, n.kind)).map fun sp => ((n.path, n.kind), sp) else none
 
 def prevGet (m : List (List Bytes × TExp)) (p : List Bytes) : TExp :=
   match m.find? (fun x => x.1 == p) with
@@ -52,6 +88,7 @@ def viewOf (s : JState) : List ONode :=
   let pm : ParsedMap := s.prev.filterMap fun (p, e) => match e with | .value n => some (p, n) | _ => none
   let unknownPrev := s.prev.filterMap fun (p, e) => match e with | .value _ => none | _ => some p
   (canonView s.regs pm 64 [] s.file).map fun n =>
+    let n := { n with spell := namesGet s.names (n.path, n.kind) }
     match n.val with
     | .str v d sub (.value k) =>
       -- a rejected text with unknown previous value: no expectation
@@ -78,13 +115,14 @@ def viewMatch : List ONode → List ONode → Bool
   | [], [] => true
   | e :: es, o :: os =>
     e.path == o.path && e.kind == o.kind && e.present == o.present && e.specified == o.specified &&
-      ovalMatch e.val o.val && viewMatch es os
+      ovalMatch e.val o.val && (e.spell.isNone || e.spell == o.spell) && viewMatch es os
   | _, _ => false
 
 def kindLetter (k : Nat) : String := match k with | 0 => "s" | 1 => "a" | 2 => "l" | _ => "o"
 
 def nodeMatch (e o : ONode) : Bool :=
-  e.path == o.path && e.kind == o.kind && e.present == o.present && e.specified == o.specified && ovalMatch e.val o.val
+  e.path == o.path && e.kind == o.kind && e.present == o.present && e.specified == o.specified && ovalMatch e.val o.val &&
+    (e.spell.isNone || e.spell == o.spell)
 
 /-- description of the first difference between the expected and the observed view -/
 def viewDiff : List ONode → List ONode → String
@@ -96,6 +134,7 @@ def viewDiff : List ONode → List ONode → String
         if e.path != o.path || e.kind != o.kind then "membership"
         else if e.present != o.present then "present"
         else if e.specified != o.specified then "specified"
+        else if !(e.spell.isNone || e.spell == o.spell) then "spelling"
         else match e.val, o.val with
           | .str v d _ _, .str v' d' _ _ => if v != v' then "value" else if d != d' then "default" else "parsed"
           | .pair h s _ _, .pair h' s' _ _ => if h != h' || s != s' then "value" else "default"
@@ -120,6 +159,9 @@ def normHooks (hs : List HookId) : List HookId := hs.foldl (fun acc h => insertS
 def effChanged (ov nv : List ONode) (o n : ONode) : Option Bool :=
   match effVal ov o, effVal nv n with
   | .num a, .num b => (match a, b with | .value x, .value y => some (x != y) | _, _ => none)
+  | .members a, .members b =>
+    -- a child whose spelling is not known leaves the expectation open
+    if ((kidsOfView ov o) ++ (kidsOfView nv n)).any (·.spell.isNone) then none else some (a != b)
   | a, b => some (a != b)
 
 /-- result of one judged operation: new state, and `some msg` when the property is violated -/
@@ -141,10 +183,11 @@ def Judge.step (s : JState) (op : Op) (obs : Obs) : JState × Option String :=
           if s.prop != 14 && doc.isSome then some "rc 0 (the file is a valid rendering of a document)" else none)
     else
       match doc with
-      | none => ({ s with known := false, lastDump := none }, none)
+      | none => ({ s with known := false, lastDump := none, names := [] }, none)
       | some d =>
         let oldView := viewOf s
         let s' := { s with file := canonTree d, lastDump := none }
+        let s' := { s' with names := namesAfterRead (viewOf s') s.names (fileNames 64 [] s'.file) }
         let newView := viewOf s'
         let s'' := { s' with known := true, prev := updatePrev newView,
                              hooks := s.hooks.filter fun h => (findNode newView h).isSome }
@@ -170,6 +213,7 @@ def Judge.step (s : JState) (op : Op) (obs : Obs) : JState × Option String :=
                 some s!"rc 0 hooks-expected missing={kinds missing} extra={kinds extra} expected {repr expected} observed {repr observed}")
   | .reg r hook, .regOk _ _ =>
     let s' := { s with regs := s.regs ++ [r], lastDump := none }
+    let s' := { s' with names := namesAfterReg (viewOf s') s.names (regNames r) s.known }
     let lp := r.path.map lowerName
     let s' := if hook && !(s'.hooks.contains (r.kind.kind, lp)) then { s' with hooks := s'.hooks ++ [(r.kind.kind, lp)] } else s'
     let s' := if s'.known then { s' with prev := updatePrev (viewOf s') } else s'
